@@ -167,8 +167,7 @@ func envString(env map[string]bool) string {
 }
 
 func checkRootPush(r *Run, vm *VisitorModel) {
-	decls := FuncDecls(vm.pkg)
-	pc := decls["parseCypher"]
+	pc := frontendParseFunc(vm.pkg)
 	if pc == nil {
 		r.Fatal("parseCypher not found")
 	}
@@ -205,8 +204,7 @@ func checkRootPush(r *Run, vm *VisitorModel) {
 // error-free parse tree contains.
 func checkResultAssigned(r *Run, vm *VisitorModel, g *Grammar) {
 	root := vm.rootVisitor(r)
-	decls := FuncDecls(vm.pkg)
-	pc := decls["parseCypher"]
+	pc := frontendParseFunc(vm.pkg)
 	info := vm.pkg.TypesInfo
 	var resField *types.Var
 	ast.Inspect(inlineFunc(vm.pkg, pc, 2).Body, func(n ast.Node) bool {
@@ -471,7 +469,7 @@ func checkConversions(r *Run, vm *VisitorModel) {
 				}
 				errId, _ := as.Lhs[1].(*ast.Ident)
 				if errId == nil || errId.Name == "_" {
-					if reason, ok := r.InTable(tbl, "c08_sites", "discard|"+construct); ok {
+					if reason, ok := r.InTableAt(tbl, "c08_sites", "discard|"+construct, info, fd, "discard:"+convName); ok {
 						r.Pass("C08-R4-conversion-error", construct, call.Pos(), "error discarded — table: %s", reason)
 					} else {
 						r.Fail("C08-R4-conversion-error", construct, call.Pos(), "the error of %s is discarded and the zero value is used", fn.Name())
@@ -566,9 +564,11 @@ func checkPanicSites(r *Run, vm *VisitorModel) {
 	info := vm.pkg.TypesInfo
 	tbl := r.LoadTable("c08_sites")
 	type site struct {
-		key  string
-		pos  token.Pos
-		what string
+		key    string
+		pos    token.Pos
+		what   string
+		fd     *ast.FuncDecl
+		detail string
 	}
 	var sites []site
 	for _, f := range vm.pkg.Syntax {
@@ -588,7 +588,7 @@ func checkPanicSites(r *Run, vm *VisitorModel) {
 				case *ast.CallExpr:
 					if id, ok := x.Fun.(*ast.Ident); ok && id.Name == "panic" {
 						if _, isBuiltin := info.Uses[id].(*types.Builtin); isBuiltin {
-							sites = append(sites, site{"panic|" + funcDeclName(fd), x.Pos(), "explicit panic"})
+							sites = append(sites, site{"panic|" + funcDeclName(fd), x.Pos(), "explicit panic", fd, "panic"})
 						}
 					}
 				case *ast.TypeAssertExpr:
@@ -616,7 +616,7 @@ func checkPanicSites(r *Run, vm *VisitorModel) {
 					if tv, ok := info.Types[x.Type]; ok {
 						t = namedName(tv.Type)
 					}
-					sites = append(sites, site{"assert|" + funcDeclName(fd) + ":" + t, x.Pos(), "unchecked type assertion to " + t})
+					sites = append(sites, site{"assert|" + funcDeclName(fd) + ":" + t, x.Pos(), "unchecked type assertion to " + t, fd, "assert:" + t})
 				}
 				return true
 			})
@@ -624,7 +624,7 @@ func checkPanicSites(r *Run, vm *VisitorModel) {
 	}
 	sort.Slice(sites, func(i, j int) bool { return sites[i].key < sites[j].key })
 	for _, s := range sites {
-		if reason, ok := r.InTable(tbl, "c08_sites", s.key); ok {
+		if reason, ok := r.InTableAt(tbl, "c08_sites", s.key, info, s.fd, s.detail); ok {
 			r.Pass("C08-R5-panic-site", s.key, s.pos, "%s — protected: %s", s.what, reason)
 		} else {
 			r.Fail("C08-R5-panic-site", s.key, s.pos, "%s in the parser front end with no recorded protecting invariant: a reachable panic breaks totality", s.what)
@@ -692,7 +692,7 @@ func checkEmptyGuard(r *Run, vm *VisitorModel) {
 	countCalls := func(n ast.Node, safe bool) {
 		ast.Inspect(n, func(m ast.Node) bool {
 			if call, ok := m.(*ast.CallExpr); ok {
-				if fn := calleeOf(info, call); fn != nil && fn.Name() == "parseCypher" {
+				if fn := calleeOf(info, call); fn != nil && isFrontendParseFunc(vm.pkg, fn) {
 					calls++
 					if safe {
 						guarded++
@@ -741,8 +741,7 @@ func checkEmptyGuard(r *Run, vm *VisitorModel) {
 func checkErrorListeners(r *Run, vm *VisitorModel) {
 	const rule = "C08-R7-error-listener"
 	info := vm.pkg.TypesInfo
-	decls := FuncDecls(vm.pkg)
-	pc := decls["parseCypher"]
+	pc := frontendParseFunc(vm.pkg)
 	if pc == nil {
 		r.Fatal("parseCypher not found")
 	}
@@ -765,9 +764,32 @@ func checkErrorListeners(r *Run, vm *VisitorModel) {
 		}
 	}
 	inl := inlineFunc(vm.pkg, pc, 2)
-	// the recognisers are locals (of parseCypher or of a helper it is split into) defined by the generated constructors
-	define := func(name *ast.Ident, value ast.Expr) {
-		nameObj := info.Defs[name]
+	// the recognisers are storage cells — locals of parseCypher or of a helper it is split into, or fields of a local
+	// struct — defined by the generated constructors; a cell that is given another cell's recogniser is the same one
+	sameRec := map[types.Object]*recog{}
+	recOf := func(o types.Object) *recog {
+		if o == nil {
+			return nil
+		}
+		for _, rc := range recs {
+			if rc.obj == o {
+				return rc
+			}
+		}
+		return sameRec[o]
+	}
+	cellObj := func(e ast.Expr) types.Object {
+		switch x := ast.Unparen(e).(type) {
+		case *ast.Ident:
+			return inl.Obj(x)
+		case *ast.SelectorExpr:
+			if v := cellOf(info, x); v != nil {
+				return v
+			}
+		}
+		return nil
+	}
+	define := func(nameObj types.Object, value ast.Expr) {
 		if nameObj == nil {
 			return
 		}
@@ -784,23 +806,24 @@ func checkErrorListeners(r *Run, vm *VisitorModel) {
 				recs = append(recs, &recog{obj: nameObj, kind: "parser"})
 			default:
 				for _, a := range v.Args {
-					if id, ok := ast.Unparen(a).(*ast.Ident); ok {
-						for _, rc := range recs {
-							if inl.Obj(id) == rc.obj {
-								derived[nameObj] = rc.kind
-							}
-						}
+					if rc := recOf(cellObj(a)); rc != nil {
+						derived[nameObj] = rc.kind
 					}
 				}
 			}
-		case *ast.Ident:
-			// a helper's result handed to a local of the caller: the same recogniser under another name
-			for _, rc := range recs {
-				if inl.Obj(v) == rc.obj {
-					derived[nameObj] = rc.kind
+			// constructor arguments: a parser built on a token stream built on the lexer is derived from the lexer
+			for _, a := range v.Args {
+				if k, ok := derived[cellObj(a)]; ok && (fn.Name() != "NewCypherLexer" && fn.Name() != "NewCypherParser") {
+					derived[nameObj] = k
 				}
 			}
-			if k, ok := derived[inl.Obj(v)]; ok {
+		case *ast.Ident, *ast.SelectorExpr:
+			// another name for the same recogniser (a helper's result, a field of a state struct)
+			src := cellObj(v.(ast.Expr))
+			if rc := recOf(src); rc != nil {
+				sameRec[nameObj] = rc
+			}
+			if k, ok := derived[src]; ok {
 				derived[nameObj] = k
 			}
 		}
@@ -810,15 +833,28 @@ func checkErrorListeners(r *Run, vm *VisitorModel) {
 		case *ast.ValueSpec:
 			for i, name := range x.Names {
 				if i < len(x.Values) {
-					define(name, x.Values[i])
+					define(info.Defs[name], x.Values[i])
 				}
 			}
 		case *ast.AssignStmt:
-			if x.Tok == token.DEFINE && len(x.Lhs) == len(x.Rhs) {
+			if len(x.Lhs) == len(x.Rhs) {
 				for i, l := range x.Lhs {
-					if id, ok := l.(*ast.Ident); ok {
-						define(id, x.Rhs[i])
+					switch lv := ast.Unparen(l).(type) {
+					case *ast.Ident:
+						if o := info.Defs[lv]; o != nil {
+							define(o, x.Rhs[i])
+						}
+					case *ast.SelectorExpr:
+						if v := cellOf(info, lv); v != nil {
+							define(v, x.Rhs[i])
+						}
 					}
+				}
+			}
+		case *ast.KeyValueExpr:
+			if k, ok := x.Key.(*ast.Ident); ok {
+				if fv, ok := info.Uses[k].(*types.Var); ok && fv.IsField() {
+					define(fv, x.Value)
 				}
 			}
 		}
@@ -844,16 +880,13 @@ func checkErrorListeners(r *Run, vm *VisitorModel) {
 		if !ok || sel.Sel.Name != "AddErrorListener" || len(call.Args) != 1 {
 			continue
 		}
-		recv, ok := ast.Unparen(sel.X).(*ast.Ident)
 		arg, ok2 := ast.Unparen(call.Args[0]).(*ast.Ident)
-		if !ok || !ok2 || inl.Obj(arg) != ctxParam {
+		if !ok2 || inl.Obj(arg) != ctxParam {
 			continue
 		}
-		for _, rc := range recs {
-			if inl.Obj(recv) == rc.obj && rc.added == token.NoPos {
-				rc.added = call.Pos()
-				addedSeq[rc] = inl.Seq(call)
-			}
+		if rc := recOf(cellObj(sel.X)); rc != nil && rc.added == token.NoPos {
+			rc.added = call.Pos()
+			addedSeq[rc] = inl.Seq(call)
 		}
 	}
 	for _, rc := range recs {
@@ -882,10 +915,8 @@ func checkErrorListeners(r *Run, vm *VisitorModel) {
 			}
 			uses := false
 			check := func(e ast.Expr) {
-				if id, ok := ast.Unparen(e).(*ast.Ident); ok {
-					if o := inl.Obj(id); o != nil && (o == rc.obj || derived[o] == rc.kind || (rc.kind == "lexer" && derived[o] != "")) {
-						uses = true
-					}
+				if o := cellObj(e); o != nil && (recOf(o) == rc || derived[o] == rc.kind || (rc.kind == "lexer" && derived[o] != "")) {
+					uses = true
 				}
 			}
 			if sel, ok := ast.Unparen(call.Fun).(*ast.SelectorExpr); ok {
@@ -907,7 +938,7 @@ func checkErrorListeners(r *Run, vm *VisitorModel) {
 	}
 	// the listener records on every call
 	var listener *ast.FuncDecl
-	for name, fd := range decls {
+	for name, fd := range FuncDecls(vm.pkg) {
 		if name == "Context.SyntaxError" || name == "(*Context).SyntaxError" || strings.HasSuffix(name, "Context.SyntaxError") {
 			listener = fd
 		}
